@@ -10,8 +10,8 @@ from ..core import fmt, frac, floats, pw_field, err_kind
 
 ID = "C06"
 THREADS = True       # part of the cases run concurrently in threads of one interpreter (the schedule dimension)
-MODULES = ["TWV.Properties.RfaImp", "TWV.Tie.RfaLoops", "TWV.Properties.C06", "TWV.Tie.Funfit"]
-TRANSLATORS = ["t4_rfaloops", "t1_funfit"]
+MODULES = ["TWV.Properties.RfaImp", "TWV.Tie.RfaLoops", "TWV.Properties.C06", "TWV.Tie.Funfit", "TWV.Tie.RfaParams"]
+TRANSLATORS = ["t4_rfaloops", "t1_funfit", "t12_rfaparams"]
 TIE = ("translator T1 regenerates the five shape functions from funfit.py's AST; TWV.Tie.Funfit proves them equal to the hand "
        "model; plus differential correspondence on funfit.* and on the four window strategies")
 RULE = ("(a) the five funfit functions at lattice arguments x0 < x < x1 (and at both end points) with exponents 1..3 computed by "
